@@ -602,8 +602,10 @@ def friendly_model(nm, log):
     if "(declare-fun S " not in text or "(declare-fun n " not in text:
         return None
     head, tail = text.split("(check-sat)", 1)
-    for sbits in (12, 16, 20, 23, 26, 32):
-        extra = "(assert (bvule n (_ bv2 64)))\n(assert (bvult S (_ bv%d 64)))\n" % (1 << sbits)
+    # realisable shapes first: with exactly two items every serialised size >= 3 exists
+    for (ncons, sbits) in [("(assert (= n (_ bv2 64)))\n(assert (bvuge S (_ bv3 64)))\n", b) for b in (12, 16, 20, 23, 26)] + \
+                          [("(assert (bvule n (_ bv2 64)))\n", b) for b in (12, 16, 20, 23, 26, 32)]:
+        extra = ncons + "(assert (bvult S (_ bv%d 64)))\n" % (1 << sbits)
         tmp = path + ".friendly.smt2"
         open(tmp, "w").write(head + extra + "(check-sat)" + tail)
         try:
